@@ -24,6 +24,7 @@ TRUSTED_BASE = [
     "harness/*.py: generators, implementation runners, canonicalisation, tolerance compare, property oracles, known-finding signatures",
     "oracle values for log10 / ln / 10** are computed by numpy in the harness and passed to the model as exact rationals",
     "the decimal exponent handed to Fmt.fmt_e is proposed by the driver in floating point and validated by the model",
+    "unit conversions of wavelengths (ExtSnap: the converted floats) and the decomposition of flux units into scale and exponents (UnitM) are astropy's, passed to the model as exact rationals / integers",
     "numpy / scipy / astropy / pickle / FITS themselves are exercised, not verified",
 ]
 
